@@ -69,7 +69,12 @@ def run_case(spec, ctx):
             where['refitted'] = True
         ok, exc = ctx.call(model.fit, data)
         if not ok:
-            ctx.violation('sample.fit', 'C09:fit-' + exc_mech(exc), dict(exc_detail(exc), **where))
+            # weakly dependent data can have a sample tau <= 0 by chance: Clayton and Gumbel then rightly refuse (C10)
+            tb = rank.tau_b(data[:600, 0], data[:600, 1]) if len(data) <= 600 else float(__import__('scipy.stats').stats.kendalltau(data[:, 0], data[:, 1])[0])
+            if isinstance(exc, ValueError) and fam in ('clayton', 'gumbel') and tb <= 0:
+                ctx.note('fit refused: sample tau <= 0 for clayton/gumbel (not a sampling case)')
+                return
+            ctx.violation('sample.fit', 'C09:fit-' + exc_mech(exc), dict(exc_detail(exc), **where, sample_tau=tb))
             return
         theta = float(model.theta)
     else:
